@@ -937,7 +937,11 @@ CONFIG["C13"] = dict(
                "cache-only), no_ptr_query_while_cache_only (any later history until browse / browse_cache / stop_browse of the type), "
                "browse_cache_quiet (the command emits events only and leaves the type quiet, also when it replaces a browse), "
                "refresh_only_for_active + cache_only_refresh_silent (every query of the refresh phase - PTR, SRV/TXT, A/AAAA - is sent "
-               "for a type that is browsed and not cache-only; none when every browse is cache-only); "
+               "for a type that is browsed and not cache-only; none when every browse is cache-only); cache_only_daemon_silent (every "
+               "state in which every browse is cache-only, no hostname search is open and nothing is queued; any datagrams; commands "
+               "browse_cache / stop / metrics / options: the iteration sends NO query of any shape - no refresh, no follow-up for an "
+               "instance whose PTR came without SRV or address, D23b - and the state stays such a state), cache_only_daemon_silent_run, "
+               "cache_only_history_silent (from the fresh daemon: 'a cache-only browse never sends a query'); "
                "delays_ok_run. Whole-history capstones from the fresh daemon: browse_channel_lifecycle, resolve_channel_lifecycle "
                "(nothing on the channel before the call, SearchStarted first, SearchStopped at the stop and nothing after, nothing "
                "ever after), timeout_channel_lifecycle + timeout_ends_for_good + stale_silent_for_ever (SearchTimeout then "
@@ -948,10 +952,11 @@ CONFIG["C13"] = dict(
                "'forgets the records it cached' is checked through a later browse of the same type in the same history, not "
                "through metrics.",
     partial=["Found-before-Resolved and the shutdown clause are monitor-only",
-             "cache-only browsing: the follow-up queries of add_pending_resolve (ANY for an instance / A+AAAA for its host, at most "
-             "three, 500 ms apart) are sent for an instance of a cache-only type too when its PTR arrives without SRV or address - "
-             "they carry other names than the type, are not refresh queries and are outside the theorems (as the follow-ups after a "
-             "stop are outside C13's reading)",
+             "cache-only browsing: the all-queries statement (cache_only_daemon_silent) is about a daemon WITHOUT any active browse, "
+             "hostname search or verify; when a type is browsed actively, an instance that a cache-only browse also sees (e.g. "
+             "through another PTR name) is followed up and refreshed on behalf of the active browse - per type only "
+             "no_ptr_query_while_cache_only / refresh_only_for_active hold; re-runs left queued by an earlier active search are "
+             "excluded by hypothesis",
              "no_host_query_after_stop assumes a daemon without browse work (A/AAAA questions for the host of a browsed service are "
              "legitimate and have the same shape)"],
     assumptions=["event receivers stay alive", "address queries for a host are attributed to the stopped hostname search only when the daemon has no browse in the history"],
